@@ -503,11 +503,10 @@ package channel
 //@   requires expected != nil && actual != nil
 //@   ensures result == nil <==> appEq(expected, actual)
 
-// sumsEq(cur, to): for every asset, participant balances plus locked funds have the same total in both allocations.
-// (Allocation.Sum / Balances.Sum / polybig.EqualSum: see the summation contracts.)
-//@ ghost func sumsEqAlloc(cur Allocation, to Allocation) bool
-//@ ghost func sumDimsEq(cur Allocation, to Allocation) bool
-//@ pred sumsEq(cur *State, to *State) = sumDimsEq(cur.Allocation, to.Allocation) && sumsEqAlloc(cur.Allocation, to.Allocation)
+// sumsEq(cur, to): both allocations have the same number of assets and, for every asset, participant balances plus locked funds
+// add up to the same total (asum: real finite sums, see Allocation.Sum).
+//@ pred sumsEq(cur *State, to *State) = len(cur.Balances) == len(to.Balances) &&
+//@   forall i int :: 0 <= i && i < len(cur.Balances) ==> asum(cur.Allocation, i) == asum(to.Allocation, i)
 
 // validSucc: the generic transition rules of the statement.
 //@ pred validSucc(m *machine, to *State) =
@@ -523,9 +522,11 @@ package channel
 //@ pred stateWF(s *State) = s != nil && s.App != nil && nonNilAssets(s.Assets) && nonNilBalances(s.Balances) && nonNilLocked(s.Locked)
 
 //@ func (*machine).ValidTransition
-//@   requires machInv(m) && m.params.App != nil && stateWF(m.currentTX.State) && stateWF(to)
+//@   requires machInv(m) && m.params.App != nil && stateWF(m.currentTX.State) && stateWF(to) && validAlloc(m.currentTX.State.Allocation)
 //@   requires m.currentTX.State.Version < 18446744073709551615
 //@   ensures result == nil <==> validSucc(m, to)
+//@   loop EqualSum.1
+//@     invariant 0 <= i && i <= n && n == len(s0) && n == len(s1) && forall k int :: 0 <= k && k < i ==> val(s0[k]) == val(s1[k])
 
 // smWF: what a StateMachine needs besides the machine invariant.
 //@ pred smWF(m *StateMachine) = m.machine != nil && machInv(m.machine) && m.app != nil && m.params.App != nil
